@@ -3,6 +3,7 @@ From DltV.Model Require Import Bytes RustInt Utf8 Nom Dlt Parse Wire.
 From DltV.Spec Require Import WellFormed.
 From DltV.Spec Require Layout.
 From DltV.Spec Require NonVerbose.
+From DltV.Spec Require ReaderSpec.
 From DltV.Model Require Import Stats Reader Stream Float FibexWire Scan.
 Open Scope N_scope.
 
@@ -218,6 +219,13 @@ Definition stable_of (sh : bool) (bs : list byte) : list wtok :=
     end.
 Definition op_stable (ts : list wtok) : list wtok :=
   run_rd (rlet sh := r_bool in rlet bs := r_bytes in rret (sh, bs)) ts (fun '(sh, bs) => stable_of sh bs).
+(* 39 INPLACE: several inputs parsed one after the other; the implementation holds them, in turn, in ONE buffer
+   (same address), as a receiver does that retries with more data.  Each result is a function of the bytes alone. *)
+Definition op_inplace (ts : list wtok) : list wtok :=
+  run_rd (rlet sh := r_bool in
+          rlet l := r_list (rlet missing := r_n in rlet b := r_bytes in rret b) in rret (sh, l)) ts
+    (fun '(sh, l) => flat_map (fun bs => w_pres w_parsed (dlt_message bs None sh)) l).
+
 (* 38 NEW_THEN_STABLE: the implementation first builds a message from the configuration and drops it unwritten,
    then does what op 28 does on the bytes; nothing of the first step may show in the second (the model has no
    state, so it ignores the configuration) *)
@@ -335,6 +343,48 @@ Definition op_async (ts : list wtok) : list wtok :=
                        (reader_of mml sched s) in
     w_list w_outcome l ++ w_bool fin).
 
+(* 43 READ_BIG (blocking, async = 0 / 1): streams longer than the readers' 10 MiB BufReader, described compactly:
+   nrec records of declared length l (header type 0x20, zero payload; with storage header when sh), then a tail.
+   Walking the BufReader model over ten million list cells is not affordable; the run evaluates the specification
+   [ReaderSpec.spec_run] instead, which IS what the reader model delivers for every capacity and schedule
+   (Properties/C07.v c07_fragmentation_cap for the blocking reader; Properties/C08b.v c08b_default_corollary for
+   the async one) - and that through [big_spec_run] below. *)
+Definition big_record (sh : bool) (l : N) : list byte :=
+  (if sh then [n2b 0x44; n2b 0x4c; n2b 0x54; n2b 0x01] ++ repeat x00 12 else [])
+  ++ [n2b 0x20; x00; n2b (l / 256); n2b (l mod 256)] ++ repeat x00 (N.to_nat (l - 4)).
+Definition big_stream (sh : bool) (nrec l : N) (tail : list byte) : list byte :=
+  concat (repeat (big_record sh l) (N.to_nat nrec)) ++ tail.
+(* what spec_run yields on such a stream, computed without walking it: the outcome of ONE record, nrec times, then
+   the run of the tail (equation proved as Properties/C07b.v c07b_big_stream) *)
+Definition big_spec_run (sh : bool) (nrec l : N) (tail : list byte) (f : option processed_filter) : list outcome :=
+  let o := ReaderSpec.spec_outcome (dlt_message (big_record sh l) f sh) in
+  if nrec =? 0 then ReaderSpec.spec_run tail f sh
+  else match o with
+       | OPanic => [OPanic]
+       | _ => repeat o (N.to_nat nrec) ++ ReaderSpec.spec_run tail f sh
+       end.
+(* the same with one record of another length l1 in front (to place the long records at any offset):
+   the stream is big_stream sh 1 l1 (big_stream sh nrec l tail); l1 = 0 means no such record
+   (equation: Properties/C07b.v c07b_big_stream2) *)
+Definition big_spec_run2 (sh : bool) (l1 nrec l : N) (tail : list byte) (f : option processed_filter) : list outcome :=
+  if l1 =? 0 then big_spec_run sh nrec l tail f
+  else match ReaderSpec.spec_outcome (dlt_message (big_record sh l1) f sh) with
+       | OPanic => [OPanic]
+       | o1 => o1 :: big_spec_run sh nrec l tail f
+       end.
+Definition op_read_big (ts : list wtok) : list wtok :=
+  run_rd (rlet async := r_bool in rlet sh := r_bool in rlet f := r_opt r_filter in rlet c := r_n in
+          rlet sched := r_list r_n in rlet l1 := r_n in rlet nrec := r_n in rlet l := r_n in rlet tail := r_bytes in
+          rret (sh, f, l1, nrec, l, tail)) ts
+    (fun '(sh, f, l1, nrec, l, tail) =>
+       w_list w_outcome (big_spec_run2 sh l1 nrec l tail (option_map process_filter f)) ++ w_bool true).
+
+(* 44 CONSTRUCT_BIG: the payload is data followed by n zero bytes, n up to beyond 2^32; data alone is complete for
+   the types (the generator builds it so), hence by Properties/C13.v c13_trailing the result is that of data alone *)
+Definition op_construct_big (ts : list wtok) : list wtok :=
+  run_rd (rlet e := r_endian in rlet tys := r_list r_ti in rlet d := r_bytes in rlet n := r_n in rret (e, tys, d)) ts
+    (fun '(e, tys, d) => w_cres (construct_for_run e tys d)).
+
 (* 60 SPECDEC / 61 SPECENC: the independent reference codec of Spec/Layout.v (C02) *)
 Definition w_verdict (v : Layout.verdict) : list wtok :=
   match v with
@@ -404,6 +454,9 @@ Definition run_case (op : N) (ts : list wtok) : list wtok :=
   | 27 => run_rd r_filter ts (fun f => w_processed (process_filter f))
   | 28 => op_stable ts
   | 38 => op_new_then_stable ts
+  | 39 => op_inplace ts
+  | 43 => op_read_big ts
+  | 44 => op_construct_big ts
   | 30 => op_filt_hand ts
   | 31 => op_prefix_at ts
   | 29 => op_streamj ts
